@@ -332,4 +332,32 @@ def scanParserOf (p : ScanParser) (pre : Bytes) : Bytes → Outcome UInt64 :=
   | .splitLast => grpcSeq pre
   | _ => keeperSeq
 
+/-! ### point accessors of the packet keeper (Get* / Set* / Has* / delete*) -/
+
+inductive StoreOp where
+  | get | set | has | delete
+  deriving DecidableEq, Repr
+
+/-- `store.<op>(host.<keyFn>(…))` inside the keeper method `fn` (regenerated); `verbatim` = the method's own
+    parameters reach the key function unchanged and in order -/
+structure Accessor where
+  fn : String
+  family : String
+  op : StoreOp
+  keyFn : String
+  keyT : Template
+  verbatim : Bool
+
+/-- a keeper method that only forwards to another accessor (regenerated) -/
+structure Delegate where
+  fn : String
+  family : String
+  target : String
+  verbatim : Bool
+
+/-- KVStore.Get on the key-sorted store -/
+def storeGet {α} (k : Bytes) : List (Bytes × α) → Option α
+  | [] => none
+  | (k', v) :: r => if k = k' then some v else storeGet k r
+
 end TM.Host
